@@ -157,7 +157,7 @@ impl IntoBuilt for DeleteStatement {
     }
 }
 
-fn case_strategy() -> impl Strategy<Value = Case> {
+pub fn case_strategy() -> impl Strategy<Value = Case> {
     (stmt_gen::dialect_stmt_render(), proptest::collection::vec(vs_strategy(), 0..5)).prop_map(|((dialect, stmt), values)| Case { dialect, stmt, values })
 }
 
